@@ -79,7 +79,9 @@ func sample(rng *rand.Rand, n *Node, alpha []rune, out *[]rune, depth int) {
 			sample(rng, n.Subs[0], alpha, out, depth+1)
 		}
 	case KLook:
-		if !n.Neg && !n.Behind && rng.Intn(2) == 0 {
+		// a lookbehind's text precedes what follows it in the pattern: emitting it here puts it there; a
+		// lookahead's text overlaps what follows (emitted half of the time, as a near miss or a prefix)
+		if !n.Neg && (n.Behind && rng.Intn(4) != 0 || !n.Behind && rng.Intn(2) == 0) {
 			sample(rng, n.Subs[0], alpha, out, depth)
 		}
 	case KRef:
